@@ -1,5 +1,5 @@
 SPECIFICATION Spec
 CONSTANTS MaxL = 8  MaxT = 4  BufSz = 3  Cap = 7
-  KeepProbe = TRUE  ProbeShort = TRUE  TeeOnErr = TRUE  PadShort = FALSE  PortFromHost = FALSE  InPlace = FALSE
+  KeepProbe = TRUE  ProbeShort = TRUE  TeeOnErr = TRUE  PadShort = FALSE  PortFromHost = FALSE  Pooled = FALSE  InPlace = FALSE
 INVARIANT NoViolation
 CHECK_DEADLOCK FALSE
